@@ -26,7 +26,7 @@ def AtMostOnce (p : Ev → Prop) (t : List Ev) : Prop :=
 /-- The helper is asked to install the rules: first line of the dialogue of `FirewallClient.start`. -/
 def IsFwStart (e : Ev) : Prop := e = .fw .routes
 /-- The synchronisation string was matched and ssh was seen alive. -/
-def IsHandshakeOk (e : Ev) : Prop := e = .hsOk
+def IsHandshakeOk (e : Ev) : Prop := ∃ b, e = .hsOk b
 /-- A ROUTES message of the server was delivered by the tunnel. -/
 def IsRoutes (e : Ev) : Prop := e = .routes
 /-- The helper's `STARTED` line was read back and the helper was seen alive (`start()` returned). -/
@@ -49,6 +49,57 @@ def isFwWrite : Ev → Bool
 def ClosedLast (t : List Ev) : Prop :=
   ∃ pre post, t = pre ++ Ev.close :: post ∧ ∀ x ∈ post, isPfileUse x = false ∧ x ≠ Ev.close
 
+/-- After an event satisfying `p`, no event satisfying `q`. -/
+def NothingAfter (p q : Ev → Prop) (t : List Ev) : Prop :=
+  ∀ pre e post, t = pre ++ e :: post → p e → ∀ x ∈ post, ¬ q x
+
+/-- The first sign of a dead tunnel: the loop's liveness probe reported ssh gone. -/
+def IsSshDead (e : Ev) : Prop := e = .sshDead
+
+/-- Anything that belongs to a live session: a new pass, a probe, the tunnel, the helper dialogue,
+readiness.  (What may still follow a dead tunnel is `rc0`, `close`, `wait`, `stop`, `cleanup`.) -/
+def isSessionUse : Ev → Bool
+  | .run _ => true
+  | .poll => true
+  | .kill => true
+  | .sel => true
+  | .selMux => true
+  | .muxRead => true
+  | .muxWrite => true
+  | .accept => true
+  | .routes => true
+  | .fw _ => true
+  | .fwFlush => true
+  | .fwReadline => true
+  | .fwPoll => true
+  | .started => true
+  | .ready => true
+  | _ => false
+
+def isProbe : Ev → Bool
+  | .poll => true
+  | .kill => true
+  | _ => false
+
+/-- Every pass of the main loop starts right after a liveness probe: the event immediately before
+each `run i` marker is `poll` or `kill`. -/
+def ProbeBeforeEachPass (t : List Ev) : Prop :=
+  ∀ pre i post, t = pre ++ Ev.run i :: post → ∃ pre' p, pre = pre' ++ [p] ∧ isProbe p = true
+
+/-- The init string every acceptance was based on is the genuine one. -/
+def AcceptOnlyGenuine (t : List Ev) : Prop := ∀ b, Ev.hsOk b ∈ t → b = Handshake.expected
+
+/-- Rules cannot outlive a dead tunnel: after the probe that saw ssh gone there is no further pass,
+probe, tunnel or helper traffic and no READY, and the control channel is closed afterwards. -/
+def DeadTunnelReleased (t : List Ev) : Prop :=
+  NothingAfter IsSshDead (fun e => isSessionUse e = true) t ∧
+  ∀ pre post, t = pre ++ Ev.sshDead :: post → Ev.close ∈ post
+
+/-- Exactly one `close`, and the channel is not used after it. -/
+def ClosedOnce (t : List Ev) : Prop :=
+  Ev.close ∈ t ∧ AtMostOnce (· = Ev.close) t ∧
+  NothingAfter (· = Ev.close) (fun e => isPfileUse e = true) t
+
 /-- The three ordering rules of the property. -/
 def Ordered (t : List Ev) : Prop :=
   Precedes IsHandshakeOk IsFwStart t ∧ Precedes IsRoutes IsFwStart t ∧ AtMostOnce IsFwStart t ∧
@@ -62,22 +113,37 @@ structure Mon where
   starts    : Nat := 0
   confirmed : Bool := false
   closed    : Bool := false
+  dead      : Bool := false   -- `sshDead` seen
+  lastProbe : Bool := false   -- the previous event was `poll` / `kill`
   bad       : Bool := false
 deriving Repr, DecidableEq
 
-def Mon.step (m : Mon) : Ev → Mon
-  | .hsOk => { m with hs := true }
-  | .routes => { m with routes := true }
+/-- Flags and verdict; `lastProbe` is maintained by `step`. -/
+def Mon.core (m : Mon) : Ev → Mon
+  | .hsOk b => { m with hs := true, bad := m.bad || decide (b ≠ Handshake.expected) }
+  | .routes => { m with routes := true, bad := m.bad || m.dead }
   | .fw .routes =>
     { m with starts := m.starts + 1,
-             bad := m.bad || !m.hs || !m.routes || decide (m.starts ≥ 1) || m.closed }
-  | .fw _ => { m with bad := m.bad || m.closed }
-  | .fwFlush => { m with bad := m.bad || m.closed }
-  | .fwReadline => { m with bad := m.bad || m.closed }
-  | .started => { m with confirmed := true }
-  | .ready => { m with bad := m.bad || !m.confirmed }
+             bad := m.bad || !m.hs || !m.routes || decide (m.starts ≥ 1) || m.closed || m.dead }
+  | .fw _ => { m with bad := m.bad || m.closed || m.dead }
+  | .fwFlush => { m with bad := m.bad || m.closed || m.dead }
+  | .fwReadline => { m with bad := m.bad || m.closed || m.dead }
+  | .started => { m with confirmed := true, bad := m.bad || m.dead }
+  | .ready => { m with bad := m.bad || !m.confirmed || m.dead }
   | .close => { m with closed := true, bad := m.bad || m.closed }
+  | .sshDead => { m with dead := true, bad := m.bad || m.closed }
+  | .run _ => { m with bad := m.bad || !m.lastProbe || m.dead }
+  | .poll => { m with bad := m.bad || m.dead }
+  | .kill => { m with bad := m.bad || m.dead }
+  | .sel => { m with bad := m.bad || m.dead }
+  | .selMux => { m with bad := m.bad || m.dead }
+  | .muxRead => { m with bad := m.bad || m.dead }
+  | .muxWrite => { m with bad := m.bad || m.dead }
+  | .accept => { m with bad := m.bad || m.dead }
+  | .fwPoll => { m with bad := m.bad || m.dead }
   | _ => m
+
+def Mon.step (m : Mon) (e : Ev) : Mon := { m.core e with lastProbe := isProbe e }
 
 def monOf (t : List Ev) : Mon := t.foldl Mon.step {}
 
